@@ -1,0 +1,10 @@
+//go:build !verif
+
+package bloomsearch
+
+// Verification hooks (see verif_hooks_on.go). With the verif build tag off
+// they are empty and inline to nothing.
+
+func verifPoint(name string) {}
+
+func verifFS(op, a, b string) {}
